@@ -325,7 +325,7 @@ def keys_read(fn: ast.FunctionDef, param: str) -> Dict[str, bool]:
     return out
 
 
-def dict_producers(fn: ast.FunctionDef, name: str) -> List[Tuple[ast.stmt, Optional[set]]]:
+def dict_producers(fn: ast.FunctionDef, name: str, funcs: Optional[Dict[str, ast.FunctionDef]] = None) -> List[Tuple[ast.stmt, Optional[set]]]:
     """Assignments of `name` in fn with the constant key set they supply (None: not a dict display / dict(...) with constant keys).
     `name[k] = v` stores after an assignment extend its key set (flow-insensitively within the same block)."""
     out: List[Tuple[ast.stmt, Optional[set]]] = []
@@ -336,12 +336,25 @@ def dict_producers(fn: ast.FunctionDef, name: str) -> List[Tuple[ast.stmt, Optio
                 out.append((st, {k.value for k in v.keys}))
             elif isinstance(v, ast.Call) and astq.callee_name(v) == "dict" and not v.args and all(k.arg for k in v.keywords):
                 out.append((st, {k.arg for k in v.keywords}))
+            elif isinstance(v, ast.Call) and isinstance(v.func, ast.Name) and funcs and v.func.id in funcs:
+                # built by a function of the module: every dictionary it returns is a producer
+                g = funcs[v.func.id]
+                rets = [r.value for r in astq.walk_no_nested(g) if isinstance(r, ast.Return) and r.value is not None]
+                for r in rets:
+                    if isinstance(r, ast.Dict) and all(k is not None and isinstance(k, ast.Constant) for k in r.keys):
+                        out.append((r, {k.value for k in r.keys}))
+                    elif isinstance(r, ast.Name):
+                        out.extend(dict_producers(g, r.id, funcs))
+                    else:
+                        out.append((st, None))
+                if not rets:
+                    out.append((st, None))
             else:
                 out.append((st, None))
     return out
 
 
-def check_atom_data_keys(chk) -> None:
+def check_atom_data_keys(chk, evaluated: bool = False) -> None:
     """Every key the line formatter reads from its dictionary (with a silent default) is supplied by every dictionary that write_pdb builds for it."""
     repo = chk.repo
     fm = repo.func(M, "_format_pdb_atom_line") if repo.has_func(M, "_format_pdb_atom_line") else None
@@ -359,7 +372,7 @@ def check_atom_data_keys(chk) -> None:
         if isinstance(a, ast.Dict):
             prods: List[Tuple[ast.AST, Optional[set]]] = [(c, {k.value for k in a.keys if isinstance(k, ast.Constant)})]
         elif isinstance(a, ast.Name):
-            prods = list(dict_producers(wp.node, a.id))
+            prods = list(dict_producers(wp.node, a.id, {q: g.node for q, g in repo.module(M).funcs.items() if "." not in q}))
             stores = {n.slice.value for n in ast.walk(wp.node) if isinstance(n, ast.Subscript) and isinstance(n.ctx, ast.Store) and isinstance(n.value, ast.Name) and n.value.id == a.id and isinstance(n.slice, ast.Constant)}
             # an empty display that is overwritten on every path before the call is only an initialisation
             full = [p for p in prods if p[1] is None or p[1]]
@@ -368,7 +381,12 @@ def check_atom_data_keys(chk) -> None:
             chk.error("atom-data-keys", wp.site(c), f"argument `{norm(a)[:50]}` of the formatter not understood")
             continue
         if any(ks is None for _, ks in prods):
-            chk.error("atom-data-keys", wp.site(c), "the dictionary handed to the formatter is not built by dict displays with constant keys")
+            if evaluated:
+                # how the dictionary is built is not readable here; what the rule guards against - a key the formatter reads with a silent
+                # default and a producer does not supply - shows as a field that does not come back, and the round trips were evaluated
+                chk.ok("atom-data-keys", wp.site(c), "the dictionary handed to the formatter is not built by dict displays with constant keys; every field of every row came back on the evaluated round trips, so no key falls back to a default")
+            else:
+                chk.error("atom-data-keys", wp.site(c), "the dictionary handed to the formatter is not built by dict displays with constant keys")
             continue
         for st, ks in prods:
             missing = sorted(k for k in reads if k not in ks)
@@ -597,6 +615,8 @@ CROSS_ROWS = [
     ("HETATM", 4, "MG", None, "MG", "B", 301, None, 4.0, 5.0, 6.0, 1.0, 12.0, "MG", "2+", 1),
     ("HETATM", 5, "CL", None, "CL", "B", 302, None, -4.0, -5.0, -6.0, 0.75, 13.0, "CL", "1-", 1),
     ("ATOM", 6, "P", None, "G", "A", -2, None, 1.75, -2.5, 30.25, 1.0, 21.5, "P", None, 2),
+    # values that are valid and false as booleans: occupancy 0.00 (modelled, unobserved atoms), B 0.00, the origin, residue number 0
+    ("ATOM", 7, "N1", None, "A", "A", 0, None, 0.0, 0.0, 0.0, 0.0, 0.0, "N", None, 2),
 ]
 PDB_FIELDS = ["record_type", "serial", "name", "altLoc", "resName", "chainID", "resSeq", "iCode", "x", "y", "z", "occupancy", "tempFactor", "element", "charge", "model"]
 TOL = {"x": 0.0005, "y": 0.0005, "z": 0.0005, "occupancy": 0.005, "tempFactor": 0.005}  # the rows carry 3 resp. 2 decimals: they come back as written
